@@ -83,10 +83,21 @@ void H::end()
                  s.tsize, s.twritten, s.tconsumed, s.tcache, s.mutated, s.orafail, s.has_str);
     if (k < msgs.size()) { std::fprintf(out, "\"got\":\"%s\",", hex(msgs[k]).c_str()); ++k; }
     else { std::fprintf(out, "\"got\":null,"); }
-    // the backend's own sanitiser with the configured check_printable_char
+    // reference sanitiser (independent of the code under test): every byte the configured check_printable_char rejects becomes
+    // its two-digit upper-case hex value "\xHH" (the byte's unsigned value), every other byte stays
     auto sanitise = [](std::string c) {
-      if (g_bopts.check_printable_char) { quill::detail::BackendWorker::sanitize_non_printable_chars(c, g_bopts); }
-      return c;
+      if (!g_bopts.check_printable_char) return c;
+      static char const hexd[] = "0123456789ABCDEF";
+      std::string o;
+      for (char ch : c)
+      {
+        if (g_bopts.check_printable_char(ch)) { o.push_back(ch); continue; }
+        unsigned const u = static_cast<unsigned char>(ch);
+        o += "\\x";
+        o.push_back(hexd[(u >> 4) & 0xF]);
+        o.push_back(hexd[u & 0xF]);
+      }
+      return o;
     };
     std::vector<std::string> raw, san, alt;
     for (auto const& e : s.strict_raw) { raw.push_back(hex(e)); san.push_back(hex(sanitise(e))); }
